@@ -331,7 +331,10 @@ def keys_uris_nl_free(m, v):
 # generators
 
 TEXT_ATOMS = ["a", "b", "Z", "0", "9", "x", "n", "\\", "'", '"', "\n", " ", ":", ",", "]", "}", "\t", "\u00e9",
-              "\u20ac", "\U0001f600", "<", ">", "&", "\\n", "\\x41", "f"]
+              "\u20ac", "\U0001f600", "<", ">", "&", "\\n", "\\x41", "f",
+              # non-ASCII characters that str.isprintable() rejects (separators, format controls, NEL): legal everywhere,
+              # and exactly what an "escape the unprintables" rewrite of a formatter would touch
+              "\u00a0", "\u00ad", "\u200d", "\u3000", "\u0085", "\u2028", "\ufeff", "\u0378"]
 NASTY_ATOMS = ["\x00", "\x07", "\r", "\x1f", "\x7f", "\ufffd"]
 
 
